@@ -30,6 +30,11 @@ type PropSpec struct {
 		Timeout int `json:"timeout,omitempty"`
 	} `json:"thorough,omitempty"`
 	QuickTimeout int `json:"quick_timeout,omitempty"`
+	// RaceFree: functions (also listed under functions) that may run concurrently on shared receivers/globals.
+	// Checked: their contract's modifies clause names only explicit output parameters (never the receiver, a
+	// package-level variable or ghost state); together with the proved frame obligations this means two
+	// concurrent calls write disjoint memory unless the caller passes overlapping outputs.
+	RaceFree []string `json:"race_free,omitempty"`
 }
 
 type BoundedSpec struct {
@@ -224,6 +229,41 @@ func cmdCheck(args []string) int {
 			obls = append(obls, ob)
 		}
 	}
+	raceOK := 0
+	for _, name := range spec.RaceFree {
+		fn := p.findFunc(name)
+		if fn == nil {
+			genFail("race:"+name, fmt.Errorf("function %s not found", name))
+			continue
+		}
+		ct := p.Contracts[fnName(fn)]
+		if ct == nil || ct.Sweep || ct.NoFrame {
+			genFail("race:"+name, fmt.Errorf("%s has no functional contract with a frame", name))
+			continue
+		}
+		recv := ""
+		if fn.Signature.Recv() != nil && len(fn.Params) > 0 {
+			recv = fn.Params[0].Name()
+		}
+		bad := ""
+		for _, m := range ct.Modifies {
+			if m.Head() == "global" || (recv != "" && sexpMentions(m, recv)) {
+				bad = m.String()
+			}
+		}
+		if len(ct.GhostSets) > 0 || len(ct.GhostHavoc) > 0 {
+			bad = "ghost state"
+		}
+		if bad != "" {
+			violations++
+			f := filepath.Join(replayDir, fmt.Sprintf("%s_race_%s.json", id, safeFile(name)))
+			writeJSON(f, map[string]interface{}{"property": id, "obligation": fnName(fn) + "#race#writes-only-outputs", "reason": "the function's write set includes shared state: " + bad})
+			lines = append(lines, fmt.Sprintf("VIOLATION property=%s replay=%s no-failing-input-found", id, f))
+			continue
+		}
+		raceOK++
+	}
+	nTrivial += raceOK
 	// unclaimed obligations are listed in the evidence but not sent to the solvers
 	var unclaimedSeen []string
 	{
@@ -501,4 +541,16 @@ func runBounded(repo, verif string, b BoundedSpec, seed int) (map[string]interfa
 	}
 	f, _ := res["failures"].(float64)
 	return res, err == nil && f == 0
+}
+
+func sexpMentions(x *SExp, atom string) bool {
+	if !x.IsL {
+		return x.Atom == atom && !x.Str
+	}
+	for _, e := range x.List {
+		if sexpMentions(e, atom) {
+			return true
+		}
+	}
+	return false
 }
